@@ -553,6 +553,18 @@ def user_static(it):
     return dict(kind="static", s=it["s"], e=it["e"], meta=md)
 
 
+def static_key(iv):
+    """what the VEVENT of a stored static event must show (used only to tell which VEVENT is whose)"""
+    ad = bool(getattr(iv, "is_all_day", False))
+    dv = (lambda t: ["date", t // DAY]) if ad else (lambda t: ["utc", t])
+    return [dv(iv.start), None if iv.end is None else ["dtend", dv(iv.end)]] + \
+        [getattr(iv, k, None) for k in ("summary", "description", "uid", "location")]
+
+
+def vevent_key(ve):
+    return [ve["dtstart"], ve["end"]] + [ve[k] for k in ("summary", "description", "uid", "location")]
+
+
 def evs(it):
     g = lambda i, k: getattr(i, k, None)
     return [[i.start, i.end, bool(g(i, "is_all_day")), g(i, "summary"), g(i, "uid"), g(i, "location")] for i in it]
@@ -851,7 +863,8 @@ class FilesFamily(IcalFamily):
     dom_funcs = {"OPENEND": "no_open_end", "ALLDAYUTC": "no_unaligned_allday", "FIXEDTZ": "no_fixed_offset",
                  "ALLDAYPAT": "no_inexpressible_allday"}
     rule = ("timelines of 1-4 items: static ICalEvents / plain Intervals (timed from 10 zones, zero-length, pre-1970, "
-            "all-day single / multi-day; summary / description / uid / location absent, empty, with commas, "
+            "all-day single / multi-day; 30% of the timelines with static events hold one of them twice (identical span and "
+            "fields; or same span, other fields; or same fields, other span); summary / description / uid / location absent, empty, with commas, "
             "semicolons, backslashes, newlines, non-ASCII, > 75 octets) and recurring patterns (rules as in C07, "
             "day=/week= spellings, exdates from real starts, all-day whole-day patterns, WKST / BYWEEKNO / ... carried "
             "along, metadata passed as None); written with timeline_to_file to /tmp, VEVENTs read from the file text, "
@@ -870,6 +883,23 @@ class FilesFamily(IcalFamily):
                     items.append(gen_static(rng, ex))
                 else:
                     items.append(dict(gen_file_pattern(rng, ex), kind="pattern"))
+            statics = [i for i in items if i["kind"] == "static" and i["e"] is not None]
+            if statics and rng.random() < 0.3:
+                # the same booking twice / same span, other fields / same fields, other span
+                src = rng.choice(statics)
+                twin = copy.deepcopy(src)
+                j = rng.random()
+                if j < 0.6:
+                    pass
+                elif j < 0.8 and src.get("cls") != "plain":
+                    twin["meta"] = gen_meta(rng, allday=src["meta"]["allday"])
+                else:
+                    sh = rng.choice([DAY, 7 * DAY, -DAY])
+                    twin["s"] += sh
+                    twin["e"] += sh
+                items.insert(rng.randrange(len(items) + 1), twin)
+                if rng.random() < 0.15:
+                    items.append(copy.deepcopy(src))          # three of a kind
             yield self.finish(rng, items)
 
     def finish(self, rng, items):
@@ -939,14 +969,33 @@ class FilesFamily(IcalFamily):
             timeline_to_file(m, path)
             data = path.read_bytes()
             ves = parse_calendar(data)
-            if len(ves) != len(order):
-                return {"err": f"{len(ves)} VEVENTs written for {len(order)} stored items"}
+            comps = list(icalendar.Calendar.from_ical(data).walk("VEVENT"))
+            # which VEVENT belongs to which stored item: patterns come first, in order; a static
+            # event's VEVENT is recognised by its values, so that a stored event that was NOT written
+            # (or written once for two equal events) shows as an item without VEVENT
+            npat = len(m._recurring_patterns)
+            pat_ves = [k for k, ve in enumerate(ves) if ve["rrule"] is not None]
+            sta_ves = [k for k, ve in enumerate(ves) if ve["rrule"] is None]
+            if len(pat_ves) != npat or len(sta_ves) > len(order) - npat:
+                return {"err": f"{len(pat_ves)}+{len(sta_ves)} VEVENTs written for {npat}+{len(order) - npat} stored items"}
+            assign = {}
+            for idx, k in zip(order[:npat], pat_ves):
+                assign[idx] = k
+            j = 0
+            for idx in order[npat:]:
+                if j < len(sta_ves) and static_key(items[idx]["_obj"]) == vevent_key(ves[sta_ves[j]]):
+                    assign[idx] = sta_ves[j]
+                    j += 1
+            if j != len(sta_ves):
+                return {"err": "a written VEVENT matches no stored static event"}
             err = io.StringIO()
             with contextlib.redirect_stderr(err):
                 m2 = file_to_timeline(path)
-                comps = list(icalendar.Calendar.from_ical(data).walk("VEVENT"))
                 k2 = 0
-                for ve, comp, idx in zip(ves, comps, order):
+                for idx in order:
+                    if idx not in assign:
+                        continue
+                    ve, comp = ves[assign[idx]], comps[assign[idx]]
                     rec = items[idx]
                     rec["vevent"] = {k: ve[k] for k in ("dtstart", "end", "rrule", "exdates", "summary", "description",
                                                         "uid", "location")}
@@ -961,12 +1010,14 @@ class FilesFamily(IcalFamily):
                         k2 += 1
                     else:
                         rec["loaded"] = obs_static(got)
+            # everything the reloaded timeline stores, with multiplicity
+            reloaded = [obs_pattern(p) for _, p in m2._recurring_patterns] + [obs_static(iv) for iv in m2._static_intervals]
             slices = []
             for a, b in case["wins"]:
                 slices.append([a, b, evs(m[a:b]), evs(m2[a:b])])
             for r in items:
                 r.pop("_obj", None)
-            return dict(items=items, slices=slices)
+            return dict(items=items, slices=slices, reloaded=reloaded)
         except AssertionError:
             raise
         except Exception as ex:
@@ -983,7 +1034,8 @@ class FilesFamily(IcalFamily):
                        f"{coq_vevent(r['vevent'], ids)} {coq_item(r['loaded'], ids)})")
         sl = clist([f"({cz(a)}, {cz(b)}, {clist([coq_ev(e, ids) for e in x])}, {clist([coq_ev(e, ids) for e in y])})"
                     for a, b, x, y in obs["slices"]])
-        return f"(mkFC {clist(its)} {sl})"
+        rl = clist([coq_item(r, ids)[6:-1] for r in obs["reloaded"]])
+        return f"(mkFC {clist(its)} {rl} {sl})"
 
     def describe(self, case):
         out = []
@@ -1004,6 +1056,9 @@ class FilesFamily(IcalFamily):
         return any(x for _, _, x, _ in obs["slices"])
 
     def distribution(self, case, dist):
+        st = [json.dumps(i, sort_keys=True) for i in case["items"] if i["kind"] == "static"]
+        if len(set(st)) < len(st):
+            dist["timelines_with_identical_static_events"] += 1
         for it in case["items"]:
             if it["kind"] == "static":
                 dist["static_allday" if it["meta"]["allday"] else "static_timed"] += 1
